@@ -159,6 +159,8 @@ def histories(run):
         bad = run.tlc("Lifecycle", lcfg(3, mech, False), workers=4, allow_violation=True, collect_json=False)
         if bad.ok or "Invariant KnownIsView is violated" not in bad.stdout:
             vf.die_tooling("Lifecycle.tla: the mechanism %s no longer violates KnownIsView — the model is vacuous" % mech)
+    # unbounded: KnownIsView (with TypeOK) is an inductive invariant of the repaired mechanism (Apalache, LifecycleInd.tla)
+    run.apalache_inductive("LifecycleInd")
     out = []
     for depth, cap in ([(3, None), (4, 1500)] if not thorough else [(4, None), (5, 20000)]):
         r = run.tlc("Lifecycle", lcfg(depth, "repaired", True), workers=8, timeout=2400)
